@@ -39,7 +39,7 @@ type CheckReport struct {
 
 type Violation struct {
 	Obligation string
-	Replay     string
+	Replay     *ReplayOutcome
 	Reason     string
 	HasInput   bool
 }
@@ -101,7 +101,7 @@ func RunCheck(o CheckOpts) (*CheckReport, error) {
 	var cs []*Contract
 	for _, k := range sortedKeys(eng.DB.Contracts) {
 		c := eng.DB.Contracts[k]
-		if c.Trusted || !hasProp(c.Props, o.Prop) {
+		if c.Trusted || c.Abstract || !hasProp(c.Props, o.Prop) {
 			continue
 		}
 		if o.Only != "" && !strings.Contains(c.Key, o.Only) {
@@ -172,8 +172,8 @@ func RunCheck(o CheckOpts) (*CheckReport, error) {
 		}
 	}
 	for _, r := range cres {
-		if r.Status != "sat" {
-			rep.Broken = append(rep.Broken, fmt.Sprintf("vacuity cover %s is %s (contradictory assumptions?)", r.Cover.Name, r.Status))
+		if r.Status == "unsat" {
+			rep.Broken = append(rep.Broken, fmt.Sprintf("vacuity cover %s is unsat (contradictory assumptions)", r.Cover.Name))
 		}
 	}
 	for _, u := range units {
@@ -203,6 +203,12 @@ func WriteReplay(dir string, prop string, v *Violation, r *Result) string {
 	os.MkdirAll(dir, 0o755)
 	path := filepath.Join(dir, sanitizeFile(v.Obligation)+".replay.json")
 	m := map[string]any{"property": prop, "obligation": v.Obligation, "reason": v.Reason}
+	if v.Replay != nil {
+		m["replayed_on_real_code"] = map[string]any{"reproduced": v.Replay.Reproduced, "input_from_model": v.Replay.Values, "driver": v.Replay.TestFile,
+			"note": v.Replay.Note, "go_test_output": v.Replay.Output}
+	} else {
+		m["replayed_on_real_code"] = "no replay driver for this obligation, or the solver gave no model"
+	}
 	if r != nil {
 		m["smt_file"] = r.File
 		m["contract_clause"] = r.Obl.Src
